@@ -412,9 +412,27 @@ func runShared(c *Ctx) {
 	counts := map[string]int{}
 	seenKey := map[string]int{}
 	nImmut := 0
+	// constructs are named by role where the function has one (or is a private step of a role function), so that
+	// renaming or splitting it does not change the identity of an obligation (and of a known finding)
+	roleName := map[*ssa.Function]string{}
+	for _, r := range []string{"executor", "resolver", "planner", "graphBuilder", "inputBuilder", "funcBuilder", "outputMapper", "structWalker"} {
+		if rf := p.MustRole(r); rf != nil {
+			for _, g := range p.Region(rf) {
+				if g.Parent() == nil {
+					if _, taken := roleName[g]; !taken {
+						roleName[g] = r
+					}
+				}
+			}
+			roleName[rf] = r
+		}
+	}
 	for _, f := range p.Funcs {
 		fname := core.FuncName(f)
-		c.R.Func(fname)
+		if rn, ok := roleName[f]; ok {
+			fname = rn
+		}
+		c.R.Func(core.FuncName(f))
 		inEsc := false
 		for g := f; g != nil; g = g.Parent() {
 			if g.Parent() != nil && c.escapingClosure(g) {
